@@ -81,24 +81,31 @@ def ruleExpandAddressForLoad (n : Node) (out inn : AMap Reg) : AMap Reg :=
     | _ => out
   | _ => out
 
+/-- first half of `rule_value_from_stack`: a destination holding "value of CSR c" takes the value
+    saved for that CSR -/
+def pullCsrValue (out : AMap Reg) (memIn : AMap MemLoc) (rd : Reg) : AMap Reg :=
+  match AMap.get out rd with
+  | some (.vcsr c) =>
+    match AMap.get memIn (.csr c) with
+    | some v => AMap.insert out rd v
+    | none => out
+  | _ => out
+
+/-- second half: a destination holding "memory at entry-sp + off" takes the slot's known value -/
+def pullStackValue (out : AMap Reg) (memIn : AMap MemLoc) (rd : Reg) : AMap Reg :=
+  match AMap.get out rd with
+  | some (.omr psp off) =>
+    if psp == 2 then
+      match AMap.get memIn (.stack off) with
+      | some v => AMap.insert out rd v
+      | none => out
+    else out
+  | _ => out
+
 def ruleValueFromStack (n : Node) (out : AMap Reg) (memIn : AMap MemLoc) : AMap Reg :=
   match n.writesTo with
   | none => out
-  | some rd =>
-    let out1 := match AMap.get out rd.val with
-      | some (.vcsr c) =>
-        match AMap.get memIn (.csr c) with
-        | some v => AMap.insert out rd.val v
-        | none => out
-      | _ => out
-    match AMap.get out1 rd.val with
-    | some (.omr psp off) =>
-      if psp == 2 then
-        match AMap.get memIn (.stack off) with
-        | some v => AMap.insert out1 rd.val v
-        | none => out1
-      else out1
-    | _ => out1
+  | some rd => pullStackValue (pullCsrValue out memIn rd.val) memIn rd.val
 
 def rulePullValueFromCsrMemory (n : Node) (out : AMap Reg) (memOutOld : AMap MemLoc) : AMap Reg :=
   match n.readsFromMemory with
@@ -111,10 +118,13 @@ def rulePullValueFromCsrMemory (n : Node) (out : AMap Reg) (memOutOld : AMap Mem
     | _ => out
   | none => out
 
-def zeroConsts {κ : Type} [DecidableEq κ] (out inn : AMap κ) : AMap κ :=
-  inn.foldl (fun acc p => match p.2 with
-    | .ors r i | .rs r i => if r == 0 then AMap.insert acc p.1 (.const i) else acc
-    | _ => acc) out
+def zeroStep {κ : Type} [DecidableEq κ] (acc : AMap κ) (p : κ × AVal) : AMap κ :=
+  match p.2 with
+  | .ors r i => if r == 0 then AMap.insert acc p.1 (.const i) else acc
+  | .rs r i => if r == 0 then AMap.insert acc p.1 (.const i) else acc
+  | _ => acc
+
+def zeroConsts {κ : Type} [DecidableEq κ] (out inn : AMap κ) : AMap κ := inn.foldl zeroStep out
 
 /-- what `rule_perform_math_ops` derives for the destination, if anything -/
 def mathResult (n : Node) (inn : AMap Reg) : Option AVal :=
@@ -179,6 +189,10 @@ def meetOver {κ : Type} [DecidableEq κ] (ms : List (AMap κ)) : AMap κ :=
   | [] => []
   | m :: rest => rest.foldl AMap.meet m
 
+def insertGen (out : AMap Reg) : Option (Reg × AVal) → AMap Reg
+  | some (r, v) => AMap.insert out r v
+  | none => out
+
 /-- `out[n]` for registers: kills, generated value, entry seeds, then the rules in the order of
     the code. `cn.memOut` is the node's memory-out of the *previous* sweep (read by the CSR pull). -/
 def nodeRegOut (cn : CNode) (inReg : AMap Reg) (inMem : AMap MemLoc) : AMap Reg :=
@@ -192,9 +206,7 @@ def nodeRegOut (cn : CNode) (inReg : AMap Reg) (inMem : AMap MemLoc) : AMap Reg 
     | none =>
       -- unknown call number: every environment call returns in a0/a1
       if n.isEcall && (knownEcall cnIn).isNone then [10, 11].foldl AMap.erase out1 else out1
-  let out2 := match n.genRegValue with
-    | some (r, v) => AMap.insert out1 r v
-    | none => out1
+  let out2 := insertGen out1 n.genRegValue
   let out3 := if n.isHandlerFunctionEntry then AMap.extend out2 (originals allWritableSet) else out2
   let out4 := if n.isFunctionEntry then AMap.extend out3 (originals calleeSavedSet) else out3
   let out5 := if n.isProgramEntry then AMap.extend out4 (originals spRaSet) else out4
